@@ -14,16 +14,22 @@ import (
 
 // lockedRand makes a seeded math/rand source usable from the goroutines a round starts
 type lockedRand struct {
-	mu sync.Mutex
-	r  *rand.Rand
-	n  int64
+	mu     sync.Mutex
+	r      *rand.Rand
+	n      int64
+	prefix []byte // scripted bytes served first (the first values the party samples)
 }
 
 func (l *lockedRand) Read(p []byte) (int, error) {
 	l.mu.Lock()
 	defer l.mu.Unlock()
 	l.n += int64(len(p))
-	return l.r.Read(p)
+	k := copy(p, l.prefix)
+	l.prefix = l.prefix[k:]
+	if k < len(p) {
+		l.r.Read(p[k:])
+	}
+	return len(p), nil
 }
 
 func newLockedRand(seed int64) *lockedRand { return &lockedRand{r: rand.New(rand.NewSource(seed))} }
